@@ -135,16 +135,17 @@ where
 {
     let start = StartedHandshakeFuture(Some(StartedHandshakeFutureInner { f, stream }));
 
-    match start.await {
-        Err(e) => Err(io::Error::other(e)),
-        Ok(StartedHandshake::Done(s)) => Ok(s),
-        Ok(StartedHandshake::Mid(s)) => {
-            let mut stream = MidHandshake(Some(s)).await.map_err(io::Error::other)?;
-            stream.get_mut().get_mut().finish_handshake();
-            stream.flush().await?;
-            Ok(stream)
-        }
-    }
+    let mut stream = match start.await {
+        Err(e) => return Err(io::Error::other(e)),
+        Ok(StartedHandshake::Done(s)) => s,
+        Ok(StartedHandshake::Mid(s)) => MidHandshake(Some(s)).await.map_err(io::Error::other)?,
+    };
+    // Also when the first call already completed the handshake: leave the
+    // handshake mode (in which `poll_flush` does nothing) and push out what the
+    // engine wrote last.
+    stream.get_mut().get_mut().finish_handshake();
+    stream.flush().await?;
+    Ok(stream)
 }
 
 impl<F, S> Future for StartedHandshakeFuture<F, S>
